@@ -52,7 +52,8 @@ def name_to_triple(n):
 
 REAL = [b"amd64", b"i386", b"arm64", b"armhf", b"kfreebsd-amd64", b"kfreebsd-i386", b"hurd-i386", b"musl-linux-arm64",
         b"musl-linux-amd64", b"linux-any", b"any-amd64", b"any", b"all", b"kfreebsd-any", b"any-i386", b"gnu-linux-amd64",
-        b"gnu-any-any", b"any-linux-any", b"any-any-amd64", b"uclibc-linux-armel", b"hurd-any", b"gnu-kfreebsd-amd64", b"any-any-any"]
+        b"gnu-any-any", b"any-linux-any", b"any-any-amd64", b"uclibc-linux-armel", b"hurd-any", b"gnu-kfreebsd-amd64", b"any-any-any",
+        b"gnueabihf-linux-arm", b"gnu-linux-arm", b"gnux32-linux-amd64", b"musleabihf-linux-arm", b"gnuabi64-linux-mips64", b"gnu-linux-mips64"]
 
 
 def T(b):
@@ -75,6 +76,18 @@ def run(chk):
         if sw[(b, a)] != i:
             chk.violate({"kind": "property", "case": lib.show_case(("ais", list(a) + list(b))), "impl": i, "swapped": sw[(b, a)],
                          "explanation": "Arch.Is is not symmetric on the domain"})
+    # the rule compares component names for EQUALITY: the same domain again with generic names that contain one another
+    # (prefix, suffix, infix - like gnu / gnueabihf / eabihf): matching must not depend on what the names look like
+    REL = {b"x86": (b"gnu", b"linux", b"arm"), b"hurd": (b"gnueabihf", b"linuxlinux", b"armhf"), b"musl": (b"eabihf", b"lin", b"hf")}
+    ren = lambda t: t if t == ALL else tuple(x if x == b"any" else REL[x][k] for k, x in enumerate(t))
+    rcases = [("ais", list(ren(a)) + list(ren(b))) for a in DOMAIN for b in DOMAIN]
+    rimpl, rmodel = chk.run_both(rcases)
+    chk.compare("is-domain-related-names", rcases, rimpl, rmodel, nontrivial=lambda c, r: r == "T")
+    for c0, c, i in zip(cases, rcases, rimpl):
+        a, b = tuple(c0[1][:3]), tuple(c0[1][3:])
+        if i != T(spec_is(a, b)):
+            chk.violate({"kind": "property", "case": lib.show_case(c), "impl": i, "expected": T(spec_is(a, b)),
+                         "explanation": "Arch.Is differs from the matching rule of the property when component names contain one another"})
     chk.extra["exhaustive"] = True
     chk.extra["domain_pairs"] = len(cases)
     # outside the domain (triples mixing "all" with other names): model vs implementation only
